@@ -68,7 +68,11 @@ def scenario(rng):
     # importing program and a library FILE loaded afterwards use the same identifier as an ordinary procedure of their own
     libmacro = rng.random() < 0.5
     if libmacro:
-        files[0] = files[0][:-1] + " (export area0) (begin (define-syntax sq (syntax-rules () ((sq a) (* a a)))) (define (area0 r) (sq r))))"
+        # the keyword is defined in one begin declaration and used in the same or in a LATER one: a library body is one body
+        if rng.random() < 0.5:
+            files[0] = files[0][:-1] + " (export area0) (begin (define-syntax sq (syntax-rules () ((sq a) (* a a)))) (define (area0 r) (sq r))))"
+        else:
+            files[0] = files[0][:-1] + " (begin (define-syntax sq (syntax-rules () ((sq a) (* a a))))) (export area0) (begin (define one-zz 1)) (begin (define (area0 r) (* one-zz (sq r)))))"
         files.append("Fld.sld=(define-library (ld) (import (scheme base)) (export bump-sq) (begin (define (sq a) (+ a 1)) (define (bump-sq a) (sq a))))")
     # a library (mx) that EXPORTS a macro, imported by library (bx) only: the program imports (bx) alone - the keyword is nothing to
     # the program, which uses that identifier as a procedure of its own (or not at all: unbound)
